@@ -976,17 +976,24 @@ def _woehler_cases(draw, tier):
         op_o, op_p, rel = draw(layouts(tier, matched_only=True))
     n, m = len(op_o["rows"]), len(op_p["rows"])
     cols = ["k_1", "ND", "SD"]
-    extra = draw(st.sampled_from([[], ["k_2"], ["TN"], ["k_2", "TN", "TS"]]))
+    # per-curve native failure probabilities (mixed inside one frame) together with scatter, so that the transformation
+    # to the requested probability matters and differs from curve to curve
+    extra = draw(st.sampled_from([[], ["k_2"], ["TN"], ["k_2", "TN", "TS"], ["TN", "failure_probability"],
+                                  ["TS", "failure_probability"], ["k_2", "TN", "TS", "failure_probability"]]))
     grid = {"k_1": [3.0, 5.0, 4.0, 7.0, 6.0], "ND": [1e6, 2e6, 1e5, 5e6, 3e5], "SD": [100.0, 200.0, 150.0, 300.0, 250.0],
-            "k_2": [9.0, 13.0, 11.0, 5.0, 25.0], "TN": [4.0, 2.0, 9.0, 1.0, 3.0], "TS": [1.25, 1.5, 1.1, 1.0, 2.0]}
+            "k_2": [9.0, 13.0, 11.0, 5.0, 25.0], "TN": [4.0, 2.0, 9.0, 1.5, 3.0], "TS": [1.25, 1.5, 1.1, 1.05, 2.0],
+            "failure_probability": [0.5, 0.1, 0.9, 0.5, 0.3]}
     op_o["kind"], op_o["columns"], op_o["dtype"] = "frame", cols + extra, "float"
     offs = [draw(st.integers(0, 4)) for _ in range(n)]
     op_o["values"] = [[grid[c][(offs[i] + (k % 2) * i) % 5] for k, c in enumerate(cols + extra)] for i in range(n)]
     op_p["kind"], op_p["columns"], op_p["dtype"], op_p["name"] = "series", None, "float", draw(st.sampled_from([None, "load"]))
-    loads = [50.0, 100.0, 120.0, 200.0, 260.0, 400.0, 150.0, 300.0]
+    direction = draw(st.sampled_from(["cycles", "cycles", "load"]))
+    # dtype of the load / cycles Series: the batch must equal the float64 scalar evaluation of the same element values
+    load_dtype = draw(st.sampled_from(["float64", "float64", "float32", "float32", "int64"] + (["float16"] if direction == "cycles" else [])))
+    loads = [50.0, 100.0, 120.0, 200.0, 260.0, 400.0, 150.0, 300.0] + ([] if load_dtype == "int64" else [120.3, 99.9, 251.7])
     op_p["values"] = [[loads[draw(st.integers(0, len(loads) - 1))]] for _ in range(m)]
     return {"obj": op_o, "prm": op_p, "failure_probability": draw(st.sampled_from([0.5, 0.5, 0.1, 0.9])),
-            "direction": draw(st.sampled_from(["cycles", "cycles", "load"]))}
+            "direction": direction, "load_dtype": load_dtype}
 
 
 def _close(a, b):
@@ -1007,6 +1014,14 @@ def woehler_downstream(case, ctx):
     curves, loads = build(op_o), build(op_p)
     if case["direction"] == "load":
         loads = loads * 1000.0
+    load_dtype = case.get("load_dtype", "float64")
+    loads = loads.astype(load_dtype)       # the scalar reference below uses float(element), i.e. the float64 value of the same element
+    ctx.label("load_dtype:" + load_dtype)
+    if "failure_probability" in op_o["columns"]:
+        natives = set(r[op_o["columns"].index("failure_probability")] for r in op_o["values"])
+        ctx.label("native_pf:" + ("mixed" if len(natives) > 1 else "uniform"))
+        if len(natives) > 1 and case["failure_probability"] in natives:
+            ctx.label("native_pf:mixed_some_equal_requested")
     om, pm = model(op_o, "o"), model(op_p, "p")
     so, sp = snapshot(curves), snapshot(loads)
     pf = case["failure_probability"]
